@@ -171,7 +171,7 @@ func c11RunSeq(p *c11Pool, ops []c11Op, o *vh.Out) {
 			_, exists := m.m[op.Name]
 			switch {
 			case op.Addr == 0 || exists:
-				if w.Code != 400 {
+				if w.Code < 400 || w.Code >= 500 { // refused with a client error; which one the statement leaves open
 					why := "the address cannot be parsed"
 					if op.Addr != 0 {
 						why = "the name is already in the pool"
@@ -338,7 +338,7 @@ var c11PorcModel = porcupine.Model{
 		switch in.Kind {
 		case "add":
 			if present {
-				return out.Status == 400, true
+				return out.Status >= 400 && out.Status < 500, true
 			}
 			return out.Status == 201, true
 		case "remove":
